@@ -58,7 +58,7 @@ pub const TOKENS: &[&str] = &[
     "\n  ", "\n   ", "\n\t", "%", "%YAML 1.2\n", "%YAML 1.1\n", "%TAG ! tag:x,1:\n", "%TAG !e! tag:e,2:\n", "%FOO bar\n",
     "%YAML", "%TAG", "@", "`", "\\", "a: b", "a:b", "a : b", "- a\n", "a:\n", "? a\n: b\n", "k: [", "{a: ", "aaaaaaaaaaaaaaaaaaaa",
     "                  ", "- - - ", "aaaaaaaaaaaaaaa#b", "aaaaaaaaaaaaaaaa#b", "aaaaaaaaaaaaaaaaa#b", "aaaaaaaaaaaaaaa:b", "aaaaaaaaaaaaaaaa: b",
-    "aaaaaaaaaaaaaa é#x", "3.14159265358979323846264338327950288419716939937510582097494459230781640628", "000000000000000000000000000000000000000000000000000000000000000042", "10000000000000000000000000000000000000000000000000000000000000000000000", "-3.14159265358979323846264338327950288419716939937510582097494459230781640628e-10", "0x000000000000000000000000000000000000000000000000000000000000001F", "!a%C3%A9b ", "!%E4%B8%AD ", "!%F0%9F%98%80 ", "!%FF ", "!%C3%28 ", "!%ED%A0%80 ", "!<%C3%A9> ", "\"\\_\\L\\P\\N\"",
+    "aaaaaaaaaaaaaa é#x", "a:\t_b", "a:\t-b", "k:\t1", "_", "_x", ":\t", "-\t", "?\t", "\t_", "\t-", "\t1", "x:\t\tA", "[a:\t_b]", "3.14159265358979323846264338327950288419716939937510582097494459230781640628", "000000000000000000000000000000000000000000000000000000000000000042", "10000000000000000000000000000000000000000000000000000000000000000000000", "-3.14159265358979323846264338327950288419716939937510582097494459230781640628e-10", "0x000000000000000000000000000000000000000000000000000000000000001F", "!a%C3%A9b ", "!%E4%B8%AD ", "!%F0%9F%98%80 ", "!%FF ", "!%C3%28 ", "!%ED%A0%80 ", "!<%C3%A9> ", "\"\\_\\L\\P\\N\"",
     "\"\\UFFFFFFFF\"", "\"\\uD800\"", "%YAML 1234567890.1\n", "%YAML 1.\n", "%YAML x\n", "|+0\n", ">-0\n", "|0+\n", "%TAG !e! tag:%C3%A9,1:\n", "%TAG !e!\n", "%TAG e tag:x\n", "http://aaaaaaaa.bb#cc", "aaaaaaaaaaaaaaaaaaaaaaaaaaaaaaa#b", "aaaaaaaaaaaaaaaaaaaaaaaaaaaaaaaa#b", "aaaaaaaaaaaaaaa,b", "aaaaaaaaaaaaaaaa]b", "a: &x\n", "<<: *a", "\0", "=", "a\\", "%41", "!a%20b ", "0o17", ".inf", "+", "-a", ":a", "?a",
 ];
 
